@@ -156,6 +156,22 @@ func (ex *Exec) intrinsic(caller *frame, fn *ssa.Function, args []value, pos tok
 		}
 		ex.lockHook = f
 		return nil, true
+	case "verifYield":
+		// an explicit scheduling point inside harness code run by the first thread
+		if il := ex.interleave; il != nil && !il.inB && !il.done {
+			il.y++
+			v := ex.input(fmt.Sprintf("yield.%s.%d", il.label, il.y), BoolSort)
+			if ex.branch(v) {
+				il.done, il.inB = true, true
+				f := il.b
+				if itf, ok := f.(iface); ok {
+					f = itf.v
+				}
+				ex.call(il.c, f, nil, token.NoPos)
+				il.inB = false
+			}
+		}
+		return nil, true
 	case "verifInterleave":
 		ex.runInterleaved(caller, ex.constStr(args[0], "interleave label"), args[1], args[2])
 		return nil, true
@@ -1805,6 +1821,7 @@ func init() {
 }
 
 type interleaveState struct {
+	y     int
 	b     value
 	done  bool
 	inB   bool
@@ -1819,7 +1836,9 @@ func (ex *Exec) maybePreempt() {
 	il := ex.interleave
 	il.n++
 	v := ex.input(fmt.Sprintf("preempt.%s.%d", il.label, il.n), BoolSort)
-	if !ex.branch(v) {
+	// explore "no preemption here" first: schedules that switch at explicit yield points
+	// (which native replays can force) are then found before those at lock boundaries
+	if ex.branch(ex.tc.Not(v)) {
 		return
 	}
 	il.done = true
